@@ -660,11 +660,22 @@ def pick_terms(rng, poolname, layout, dim, kmax=3, need_nonlinear=True, only_lin
     if need_nonlinear and nl and not only_linear:
         # the leading nonlinear term rotates with the case index so that every term of the grammar is met
         chosen.append(nl[(rot if rot is not None else int(rng.integers(len(nl)))) % len(nl)])
-    while len(chosen) < min(k, len(pool)):
+    tries = 0
+    while len(chosen) < min(k, len(pool)) and tries < 50:
+        tries += 1
         t = pool[int(rng.integers(len(pool)))]
-        if t not in chosen:
+        # a term that passes its own `h` / `n` keyword (a NumPy field) cannot share a problem with a term written for the
+        # default JAX fields of the same name (harness grammar, not the library)
+        if t not in chosen and not any(_conflict(t, c) for c in chosen):
             chosen.append(t)
     return chosen
+
+
+_SHADOW = {"kwargs-shadow-h": ("field-with-field",), "kwargs-facet-shadow-n": ("radiation", "field-with-field")}
+
+
+def _conflict(a, b):
+    return b.name in _SHADOW.get(a.name, ()) or a.name in _SHADOW.get(b.name, ())
 
 
 def kwargs_for(rng, basis, terms):
